@@ -152,10 +152,15 @@ Definition tget (t : tree) (p : list bytes) : option tnode :=
 Definition slash1 : bytes := [slash].
 Definition path_str (p : list bytes) : bytes := join slash1 p.
 
-(* create_entry + apply_metadata for one walked item (symbolic link before file before directory) *)
+(* create_entry + apply_metadata for one walked item (symbolic link before file before directory).
+   apply_metadata uses symlink_metadata: with --keep-permission a symbolic-link entry carries the link's own
+   mode (lrwxrwxrwx); with --keep-timestamp link and directory entries carry times as well, which extract_entry
+   never reads for these kinds (not represented) *)
+Definition link_mode : N := 511.
 Definition entry_of (c : copts) (p : list bytes) (n : tnode) : xentry :=
   match n with
-  | TLink t => mk_xentry (path_str p) 2 (normalize_reference t) None None []
+  | TLink t => mk_xentry (path_str p) 2 (normalize_reference t)
+                        (if c_keep_perm c then Some link_mode else None) None []
   | TFile d m t xs =>
     mk_xentry (path_str p) 0 d
       (if c_keep_perm c then Some m else None)
